@@ -1,7 +1,7 @@
 (* C02 - A membership verification that succeeds is always a true membership.
    Statement only; the proof is `exact` a lemma of Balloon/BalloonProofs.v. *)
 From QV Require Import Base.Util Base.HashSig History.HistModel History.HistSpec Hyper.HyperModel
-  Balloon.Balloon Balloon.BalloonProofs Properties.Instance.
+  Balloon.Balloon Balloon.BalloonProofs Balloon.AutoVerify Balloon.AutoVerifyProofs Properties.Instance.
 
 Section C02.
   Variables D E V : Type.
@@ -25,6 +25,21 @@ Section C02.
     a_exists _ _ _ a = true /\ a_actual _ _ _ a <= a_query _ _ _ a /\
     d = A (a_actual _ _ _ a) /\ a_actual _ _ _ a <= v.
   Proof. exact (digest_verify_sound D E V H nbits kbits vval D_eqb E_eqb H_inj D_eqb_eq A a d v hyper_digest). Qed.
+
+  (* The client's MembershipAutoVerify(d, v) (client/client.go: it fetches the answer, picks the published snapshots by
+     the versions the answer carries and calls DigestVerify) against a snapshot store that publishes the snapshots of the
+     log A: if it returns true, d was inserted at a version not later than the version v THE CALLER asked about. *)
+  Theorem C02_auto_verify_sound (A : N -> E) (S : N -> option (D * D)) (a : answer D E V) (d : E) (v : N) :
+    authentic D E V H A S ->
+    auto_verify D E V H nbits kbits vval D_eqb E_eqb true S (Some v) a d = Accept ->
+    a_exists _ _ _ a = true /\ d = A (a_actual _ _ _ a) /\ a_actual _ _ _ a <= v.
+  Proof. exact (auto_verify_sound D E V H nbits kbits vval D_eqb E_eqb H_inj D_eqb_eq A S a d v). Qed.
+
+  (* IncrementalAutoVerify(s, e): an accepted answer is the proof of the pair that was asked for *)
+  Theorem C02_incr_auto_verify_sound (A : N -> E) (S : N -> option (D * D)) (s e : N) (p : list (pos * D)) (ps pe : N) :
+    authentic D E V H A S -> ps <= pe -> 0 < pe ->
+    incr_auto_verify D E V H D_eqb S s e p ps pe = Accept -> ps = s /\ pe = e.
+  Proof. exact (incr_auto_verify_sound D E V H D_eqb H_inj D_eqb_eq A S s e p ps pe). Qed.
 End C02.
 
 (* Non-vacuity: on the concrete instance the premises hold and a genuine answer is accepted, so the
@@ -39,4 +54,22 @@ Proof.
   eexists. split; vm_compute; reflexivity.
 Qed.
 
+(* The pinned code (before fix 38c5ded) did not compare the answer's version with the requested one: the statement above
+   is FALSE of it - a genuine answer for version 2 makes a query at version 0 return true for an event inserted at
+   version 1.  With the comparison the same answer is rejected for 0 and accepted for 2. *)
+Definition S4 (q : N) : option (D4 * D4) := Some (root D4 E4 N H4 (logf E4 (e4 0) evs2) q, hyper_digest D4 E4 N H4 ds4 st2).
+Example C02_auto_verify_pinned_refuted :
+  authentic D4 E4 N H4 (logf E4 (e4 0) evs2) S4 /\
+  exists a, query_membership_consistency D4 E4 N H4 4 ds4 kbits4 vid st2 (e4 4) 2 = QOk _ _ _ a /\
+    a_actual _ _ _ a = 1 /\
+    auto_verify D4 E4 N H4 4 kbits4 vid D4_eqb E4_eqb false S4 (Some 0) a (e4 4) = Accept /\
+    auto_verify D4 E4 N H4 4 kbits4 vid D4_eqb E4_eqb true S4 (Some 0) a (e4 4) = Reject /\
+    auto_verify D4 E4 N H4 4 kbits4 vid D4_eqb E4_eqb true S4 (Some 2) a (e4 4) = Accept.
+Proof.
+  split; [intros q h y Hs; unfold S4 in Hs; injection Hs as <- _; reflexivity|].
+  eexists. repeat split; vm_compute; reflexivity.
+Qed.
+
 Print Assumptions C02_digest_verify_sound.
+Print Assumptions C02_auto_verify_sound.
+Print Assumptions C02_incr_auto_verify_sound.
